@@ -2,7 +2,7 @@
 (* Code -> spec for C14: every request the scripted API received during real engine runs is one trace line; each line is judged
    against the user-supplied value of every configured carrier that applies to the requested operation. *)
 EXTENDS Naturals, Sequences, FiniteSets, TLC, Json, IOUtils
-Runs == JsonDeserialize(IOEnv.OBS_FILE)   \* [hdr |-> [carriers, user, applies], lines |-> <<[op, ph, vals]>>]
+Runs == JsonDeserialize(IOEnv.OBS_FILE)   \* [hdr |-> [carriers, user, applies, issued], lines |-> <<[op, ph, vals]>>]
 NC == 8
 KeyCarrier == 8        \* the API's declared credential (apiKey header): the only thing an ignored_auth probe may lack
 VARIABLES t, l
@@ -17,7 +17,11 @@ FirstBad(x) == CHOOSE c \in 1..NC : Hdr.carriers[c] /\ Hdr.applies[x.op][c] /\ ~
 (* at most one credential-less and one invalid-credential probe per probed request and declared security parameter (one here) *)
 ProbesOf(p) == Cardinality({i \in 1..Len(Lines) : Lines[i].probe /\ Lines[i].parent = p})
 ProbeBudgetOK == \A i \in 1..Len(Lines) : Lines[i].probe => ProbesOf(Lines[i].parent) <= 2
+(* the provider's token is fetched at most once per cache key within the refresh interval (default 300 s; a run lasts seconds),
+   whatever the number of workers: Hdr.issued[k] = number of provider.get calls for key k *)
+FetchBudgetOK == \A k \in 1..Len(Hdr.issued) : Hdr.issued[k] <= 1
 Report == /\ IF l <= Len(Lines) /\ ~LineOK(Lines[l]) THEN PrintT(<<"REJECT", t, l, FirstBad(Lines[l]), Lines[l].ph, Lines[l].op>>) ELSE TRUE
           /\ IF l = Len(Lines) + 1 /\ ~ProbeBudgetOK THEN PrintT(<<"REJECT", t, l, 0, 0, 0>>) ELSE TRUE
+          /\ IF l = Len(Lines) + 1 /\ ~FetchBudgetOK THEN PrintT(<<"REJECT", t, l, 0, 1, 0>>) ELSE TRUE
           /\ IF l = Len(Lines) + 1 THEN PrintT(<<"END", t, Len(Lines)>>) ELSE TRUE
 =============================================================================
